@@ -94,9 +94,9 @@ func b01(b bool) int {
 	return 0
 }
 
-// badParamMarkers are literals that no numeric/bool/enum/Timestamp/Duration/wrapper parser accepts;
+// badParamMarkers are literals that no numeric/bool/enum/bytes(base64)/Timestamp/Duration/wrapper parser accepts;
 // the generator builds tag=badparam requests only by placing one of them into a typed parameter.
-var badParamMarkers = []string{"zz~bad", "1.5.2x", "--1", "0x_g", "tru3"}
+var badParamMarkers = []string{"zz~bad", "1.5.2x", "--1~", "0x_g~", "tru3~"}
 
 func hasBadParamMarker(target string) bool {
 	for _, m := range badParamMarkers {
